@@ -132,7 +132,7 @@ Proof.
 Qed.
 (** the quoted texts *)
 Lemma escaped_bounds e : bounds (fs_frag (escaped_fragspan e)) =
-  (top_left_most (fst e), bottom_right_most (C (cx (fst e) + text_columns (snd e)) (cy (fst e)))).
+  (top_left_most (fst e), bottom_right_most (C (cx (fst e) + Z.max (text_columns (snd e) - 1) 0) (cy (fst e)))).
 Proof. destruct e as [c s]. reflexivity. Qed.
 Lemma escaped_A_upper e : In e (cb_escaped cbA) -> is_upper (fs_frag (escaped_fragspan e)).
 Proof.
